@@ -13,7 +13,7 @@ RULE = ("for every decoded node D of every result that carried no decoder-suppli
         "registries. distinct_nontrivial = distinct cases with a non-empty result.")
 ASSUMPTIONS = ["the comparison scan uses the same decoder functions (unwrapped) in the same order"]
 EXPECTED_WALL = {"quick": 60, "thorough": 500}
-REQUIRED = {"c08_decoded_nodes_compared": 5000, "c08_compared_with_children": 1000, "c08_inside_context": 100, "real_scans": 500}
+REQUIRED = {"c08_decoded_nodes_compared": 625, "c08_compared_with_children": 125, "c08_inside_context": 12, "real_scans": 62}
 
 
 def plan(tier, seed):
